@@ -31,6 +31,7 @@ def check_exact_read(repo: Repo, ob: Obligation, fi: FuncInfo) -> None:
     and for the function: the loop ends only when P >= n (condition or guard-return), the accumulated bytes are returned.
     An accumulation idiom outside this family is an analysis error (exit 2), never a violation."""
     from ..util import expand, xtext
+    fi = repo.flat(fi)  # normal form: a shared read-until-n helper is analysed inlined, with its chunk reader bound
     params = [p for p in fi.params() if p != "self"]
     ob.require(len(params) == 1, f"{fi.short}: one size parameter expected")
     n = params[0]
@@ -306,7 +307,7 @@ def check_atomic_write(ctx: Ctx, oid: str) -> None:
             ci = repo.cls(cname)
             if "write" not in ci.methods:
                 continue  # inherited
-            fi = ci.methods["write"]
+            fi = repo.flat(ci.methods["write"])
             prim = [c for c in repo.calls_in(fi) if callee_attr(c) in ("_write", "write", "sendall", "send", "sendmsg") and not unparse(c.func).startswith("sys.")]
             mode = None
             if send_locked:
@@ -406,7 +407,7 @@ def check(ctx: Ctx) -> None:
     with ctx.obligation("C08.c", "exact-read") as ob:
         impl = [c for c in repo.io_implementors("IO") if "read" in repo.cls(c).methods]
         for cname in impl:
-            fi = repo.cls(cname).methods["read"]
+            fi = repo.flat(repo.cls(cname).methods["read"])
             if cname == "ProxyIO":
                 # delegation to ChannelFileRead.read (C19 a-c decide its stream integrity)
                 cs = [c for c in repo.calls_in(fi) if callee_attr(c) == "read"]
